@@ -359,6 +359,57 @@ func (x *Exec) locAsTerm(v *Val) *smt.Term {
 	if v.Loc != nil && v.Loc.Ref != nil && len(v.Loc.Path) == 0 {
 		return v.Loc.Ref
 	}
+	if v.Loc != nil && v.Loc.Cell == nil && x.rootC != nil && x.rootC.Opts["interiorptrs"] != "" {
+		return x.interiorPtr(v.Loc)
+	}
+	return nil
+}
+
+// interiorPtr (`opt interiorptrs 1`): a pointer into the middle of an object
+// (slice element, struct field) used as a value - stored in a local array, say -
+// is represented by a symbolic non-nil constant remembered together with the
+// location it stands for. Dereferencing works when the value read back is that
+// constant (or a merge of it with nil); anything else stays unsupported. Two
+// different locations get unrelated constants (no aliasing fact is assumed).
+func (x *Exec) interiorPtr(l *Loc) *smt.Term {
+	for id, o := range x.iptrs {
+		if sameLoc(o, l) {
+			return x.iptrTerm[id]
+		}
+	}
+	t := x.b.Fresh("iptr", "Int")
+	x.axiom(x.b.Cmp(">", t, x.b.Int(0)))
+	if x.iptrs == nil {
+		x.iptrs = map[int]*Loc{}
+		x.iptrTerm = map[int]*smt.Term{}
+	}
+	lc := *l
+	x.iptrs[t.ID] = &lc
+	x.iptrTerm[t.ID] = t
+	return t
+}
+
+// resolveIptr: the location a pointer term stands for, if it is an interior
+// pointer constant, possibly merged with nil.
+func (x *Exec) resolveIptr(t *smt.Term) *Loc {
+	if len(x.iptrs) == 0 {
+		return nil
+	}
+	if l, ok := x.iptrs[t.ID]; ok {
+		return l
+	}
+	if t.Op == "ite" && len(t.Args) == 3 {
+		isZero := func(a *smt.Term) bool { return a.IntV != nil && a.IntV.Sign() == 0 }
+		la, lb := x.resolveIptr(t.Args[1]), x.resolveIptr(t.Args[2])
+		switch {
+		case la != nil && isZero(t.Args[2]):
+			return la
+		case lb != nil && isZero(t.Args[1]):
+			return lb
+		case la != nil && lb != nil && sameLoc(la, lb):
+			return la
+		}
+	}
 	return nil
 }
 
